@@ -165,5 +165,6 @@ Definition run (cmd : N) (arg : sx) : sx :=
   | 143 => run_c14_3 arg
   | 210 => run_glr_210 arg
   | 211 => run_glr_211 arg
+  | 212 => run_glr_212 arg
   | _ => L [A 999999]
   end.
